@@ -383,16 +383,19 @@ CLAIMED = {
             "pp_exp_bn / pp_exp_sm9 / pp_exp_b12 / pp_exp_k12 / fp12_conv_cyc are translated from the C text on every run (tools/translate_pp.py), "
             "proved = f^(c (p^12-1)/r) with c = 2x(6x^2+3x+1) / 1 / 3 for every integer x, gcd(c, r) = 1 for every x, easy part in the cyclotomic "
             "subgroup of any field with p^12 elements; fp12_exp_cyc_sps hand model proved = exponentiation by the denoted integer; all executed by "
-            "the driver on arbitrary field elements and compared with the plain power. CLASS A for structure: pp_mil_k12 / pp_mil_lit_k12 / "
+            "the driver on arbitrary field elements and compared with the plain power. CLASS A, Miller loops: pp_mil_k12 / pp_mil_lit_k12 / "
             "pp_fin_k12_oatep / pp_map_(sim_)oatep,tatep,weilp_k12 hand models proved to compute the canonical Miller recurrence for the integer "
             "the digits denote (running point [s]Q, multi-loop = product of single loops) over an abstract Miller algebra, executed over E(Fp12) "
-            "with affine lines and compared with the library's pairing values after the final exponentiation. CLASS C: the projective lazy-"
-            "reduction line functions (parameters of the loop model). Proved in Lean: 6 theorems of Props/C04.lean (x^((q-1)/r) has order "
-            "dividing r in a finite field; final exponentiation multiplicative, multi-pairing = product; bilinearity / identity slots / "
-            "non-degeneracy extend from the generators) + 21 of Props/C04B.lean + 5 generated obligations.",
-            "Trusted: Lean kernel; tower spec as the definition of Fp12; tools/translate_pp.py; the line functions are not modelled (compared "
-            "through the pairing values only); compressed squarings abstracted to squarings; BLS12-381 runs in the p381 configuration; the "
-            "k = 8, 16, 18, 24 families are not covered.",
+            "with affine lines and compared with the library's pairing values after the final exponentiation. CLASS A, line functions: "
+            "pp_dbl/add_k12_projc_basic/_lazyr, pp_dbl/add_lit_k12 (general-b branch) translated from the C text on every run "
+            "(tools/translate_ppline.py), proved: sparse element = (factor in the field of the twist) x affine tangent/chord coefficients, point "
+            "update = curve law; executed by the driver (exact equality with the library incl. slot placement). CLASS C: the b = 2 branch of the "
+            "doubling, EP_ADD = BASIC line functions, compressed squarings (abstracted). Proved in Lean: 6 theorems of Props/C04.lean "
+            "(x^((q-1)/r) has order dividing r in a finite field; final exponentiation multiplicative, multi-pairing = product; bilinearity / "
+            "identity slots / non-degeneracy extend from the generators) + 27 of Props/C04B.lean + 11 generated obligations.",
+            "Trusted: Lean kernel; tower spec as the definition of Fp12; tools/translate_pp.py, tools/translate_ppline.py; lazy reduction and "
+            "compressed squarings abstracted to field operations on values; BLS12-381 runs in the p381 configuration; the k = 8, 16, 18, 24 "
+            "families are not covered.",
             "DESIGN.md §S.2 (C04)"),
 }
 
